@@ -106,12 +106,31 @@ def classify(failures, known, prop):
     return new, old
 
 
+def _watchdog(prop, tier):
+    """a check never hangs: beyond its wall-clock budget (VERIF_BUDGET_S; quick 30 min, thorough 3 h) the process ends
+    with the machinery-error exit code instead of waiting for a run of the real package that does not come back"""
+    import threading
+    budget = float(os.environ.get("VERIF_BUDGET_S") or (1800 if tier == "quick" else 10800))
+
+    def fire():
+        sys.stderr.write(f"MACHINERY ERROR: check {prop} {tier} exceeded its wall-clock budget of {budget:.0f} s\n")
+        sys.stderr.flush()
+        os._exit(2)
+
+    t = threading.Timer(budget, fire)
+    t.daemon = True
+    t.start()
+    return t
+
+
 def run_check(prop, tier, seed):
     ctx = Ctx(prop, tier, seed)
     engine = load_engine(prop)
+    dog = _watchdog(prop, tier)
     try:
         return _run_check(ctx, engine)
     finally:
+        dog.cancel()
         ctx.cleanup()
 
 
